@@ -290,6 +290,20 @@ Definition witness_collapse : c03case :=
 Lemma refuted_collapse : spec_C03 witness_collapse (run_C03 witness_collapse) = false /\ known_C03 witness_collapse = [3].
 Proof. vm_compute. split; reflexivity. Qed.
 
+(* class 2: a deletion record removes another version than the one it names — here the version the
+   same pull has just fetched (records of the row on two days): the pull 1<-0 ends without the row
+   although peer 0 shows it *)
+Definition witness_other_version : c03case :=
+  C03Case 3%N
+    [Create 0%N 1%N 3000 1%N; Pull 1%N 0%N [0]; Pull 2%N 0%N [0]; Update 1%N 1%N 63000 2%N;
+     Delete 0%N 1%N 123000; Delete 2%N 1%N 86403000; Pull 0%N 2%N [0; 86400000]; Pull 0%N 1%N [0];
+     Pull 1%N 0%N [0; 86400000];
+     Pull 1%N 0%N [0]; Pull 2%N 0%N [0; 86400000]; Pull 2%N 0%N [0]]
+    [Pull 0%N 1%N []; Pull 0%N 2%N []; Pull 1%N 0%N []; Pull 1%N 2%N []; Pull 2%N 0%N []; Pull 2%N 1%N []].
+Lemma refuted_other_version :
+  spec_C03 witness_other_version (run_C03 witness_other_version) = false /\ known_C03 witness_other_version = [2].
+Proof. vm_compute. split; reflexivity. Qed.
+
 (* class 4: if the log comparison skips a day on which the source holds a row the receiver lacks
    (history-hash shortcut, stale daily hash), that row is never delivered by this pair *)
 Definition witness_skipped_day : c03case :=
